@@ -229,6 +229,40 @@ def run(ctx: Ctx) -> None:
             ctx.case(("isvalid", s, k))
             if got[0] != base[0]:
                 ctx.violation("validity check depends on the interleaving of the concurrently running evaluations", {"expression": s, "without_yielding": base, "got": got}, key="isvalid-interleaving")
+        # each of the concurrently running evaluations must be handed its own content evaluation result (the one the setter was called with for it),
+        # and the caller's context-local data must still be the caller's afterwards
+        sentinel = evalenv.make_cer(rc={"1": "F"})
+        handed_to_setter = []
+
+        def spy_setter(cer):
+            handed_to_setter.append(cer)
+            evalenv.set_cer(cer)
+
+        async def check_with_own_data():
+            evalenv.set_cer(sentinel)
+            evalenv.provider_log = []
+            try:
+                res = await is_valid_expression(s, spy_setter)
+                return res, list(evalenv.provider_log), evalenv.current_cer.get()
+            finally:
+                evalenv.provider_log = None
+
+        for k in range(ctx.pick(2, 6)):
+            S.set_schedule({(kind, key): rng.randint(0, 4) for kind in ("rc", "fc", "hint") for key in ("1", "2", "3", "501", "901", "983", "984")} if k else {})
+            res, seen, after = asyncio.run(check_with_own_data())
+            ctx.case(("isvalid-own-data", s, k))
+            seen_ids = {id(c) for c in seen}
+            not_seen = [c for c in handed_to_setter if id(c) not in seen_ids]
+            foreign = [c for c in seen if c is not sentinel and all(c is not h for h in handed_to_setter)]
+            if res[0] and handed_to_setter and (not_seen or foreign):
+                ctx.violation("the concurrent evaluations of a validity check are not each handed their own context-local content evaluation result",
+                              {"expression": s, "results_handed_to_the_setter": len(handed_to_setter), "of_which_never_seen_by_an_evaluation": len(not_seen),
+                               "distinct_results_seen": len(seen_ids), "python": "see vf/props/c12.py: check_with_own_data (ContextVar-based setter, provider that logs what it hands out)"},
+                              key="isvalid-own-data")
+            if after is not sentinel:
+                ctx.violation("a validity check overwrites the caller's own context-local evaluatable data",
+                              {"expression": s, "callers_data_before": "sentinel result (1 = FULFILLED)", "callers_data_after": "one of the generated results" if after is not None else None}, key="isvalid-caller-data")
+            handed_to_setter.clear()
         # negative control: a process-global instead of a context-local setter must be disturbed by the interleavings we generate
     ctx.sample({"gather_if_necessary": gin[:2]})
     if drv:
